@@ -212,6 +212,13 @@ def r4(ctx):
             ctx.emit('C10-R4', ok, SPLITDOUBLE, c, f'split_double_BAM bins with increment == bin size: {src(c)} (single window)', key='split-double-caller', nontrivial=False)
 
 
+@rule('C10', 'C10-R5', 'the coordinate that is binned is the value of the read itself, also when it is 0: tag values are never tested for truth (shared with C11-R6)')
+def r5(ctx):
+    from . import C11
+    from ..core import include
+    include(ctx, C11, [C11.r6], 'C10-R5')
+
+
 META = {
     'text': ('Decides for ALL coordinates, bin sizes and sliding increments: the first/last window indices computed by both '
              'copies of coordinate_to_sliding_bin_locations satisfy first - (p-b)/s in (0,1] and last - p/s in (-1,0] '
